@@ -51,22 +51,23 @@ theorem imports_exact (ts : List ClsRef) (m n : Str) :
     have : (t.module == builtinsMod) = false := by simpa using hnb
     simp [importOf, this]
 
-/-- **imports_sufficient (partial)**: for every world and every value in the
-property's domain that avoids the excluded regions, each dotted name the
-emitted expression uses resolves — in the namespace created by the emitted
-import lines alone — to exactly the class it was written for. -/
-theorem imports_sufficient_partial (W : World) (v : Val)
-    (hwf : wf W v = true) (hdom : domOK W v = true) (hclean : clean v = true)
-    (himp : importsOK W v = true) :
-    EnvGood W (importsEnv W v) (render W v).refs := by
+/-- **imports_sufficient, for any repair configuration**: for every world and
+every value in the property's domain that avoids the regions `cfg` does not
+repair, each dotted name the emitted expression uses resolves — in the
+namespace created by the emitted import lines alone — to exactly the class it
+was written for. -/
+theorem imports_sufficient_cfg (cfg : Cfg) (W : World) (v : Val)
+    (hwf : wf W v = true) (hdom : domOK W v = true) (hclean : clean cfg v = true)
+    (himp : importsOKC cfg W v = true) :
+    EnvGood W (importsEnv W v) ((render W v).refs cfg) := by
   intro pc hpc
-  have hok := valOK_of_dom_clean W v hdom hclean
-  have hg := refs_good W v hwf hok pc hpc
-  have hmem := refs_sub_types (render W v) pc hpc
+  have hok := valOK_of_dom_clean cfg W v hdom hclean
+  have hg := refs_good cfg W v hwf hok pc hpc
+  have hmem := refs_sub_types cfg (render W v) pc hpc
   apply resolve_of_good hg hmem
   intro t ht
   have := himp
-  simp only [importsOK, importsOKe, List.all_eq_true] at this
+  simp only [importsOKC, importsOKe, List.all_eq_true] at this
   have h := this pc hpc t ht
   simp only [Bool.or_eq_true, beq_iff_eq, bne_iff_ne] at h
   rcases h with (h | h) | h
@@ -74,37 +75,63 @@ theorem imports_sufficient_partial (W : World) (v : Val)
   · exact Or.inr (Or.inl h)
   · exact Or.inr (Or.inr h)
 
-/-- **code_rt (partial)**: executing the rendered source — the emitted import
-lines, then the emitted expression — succeeds and yields a value Python-equal
-to the original, for all classes (nested, frozen, with `init=False` fields and
-default factories) and all instances in the domain outside the four excluded
-regions. Fields elided because they equal their default are restored by the
-constructor to a value equal to the original's. -/
+/-- **code_rt, for any repair configuration** -/
+theorem code_rt_cfg (cfg : Cfg) (W : World) (v : Val)
+    (hwf : wf W v = true) (hdom : domOK W v = true) (hclean : clean cfg v = true)
+    (himp : importsOKC cfg W v = true) :
+    ∃ v', runC cfg W v = .ok v' ∧ pyEq v' v = true :=
+  rt cfg W (importsEnv W v) v hwf (valOK_of_dom_clean cfg W v hdom hclean)
+    (imports_sufficient_cfg cfg W v hwf hdom hclean himp)
+
+/-- **imports_sufficient (partial)** — the code as it is: every name the
+source uses is bound by the emitted imports to the class it means, outside the
+excluded regions (`clean`: nested enum / non-empty tuple / QName needing
+escapes; `importsOK`: one name imported from two modules). -/
+theorem imports_sufficient_partial (W : World) (v : Val)
+    (hwf : wf W v = true) (hdom : domOK W v = true) (hclean : clean Cfg.asIs v = true)
+    (himp : importsOK W v = true) :
+    EnvGood W (importsEnv W v) ((render W v).refs Cfg.asIs) :=
+  imports_sufficient_cfg Cfg.asIs W v hwf hdom hclean himp
+
+/-- **code_rt (partial)** — the code as it is: executing the rendered source —
+the emitted import lines, then the emitted expression — succeeds and yields a
+value Python-equal to the original, for all classes (nested, frozen, with
+`init=False` fields and default factories) and all instances in the domain
+outside the four excluded regions. Fields elided because they equal their
+default are restored by the constructor to a value equal to the original's. -/
 theorem code_rt_partial (W : World) (v : Val)
-    (hwf : wf W v = true) (hdom : domOK W v = true) (hclean : clean v = true)
+    (hwf : wf W v = true) (hdom : domOK W v = true) (hclean : clean Cfg.asIs v = true)
     (himp : importsOK W v = true) :
     ∃ v', run W v = .ok v' ∧ pyEq v' v = true :=
-  rt W (importsEnv W v) v hwf (valOK_of_dom_clean W v hdom hclean)
-    (imports_sufficient_partial W v hwf hdom hclean himp)
+  code_rt_cfg Cfg.asIs W v hwf hdom hclean himp
 
 /-- the same, phrased on the outcome class that the correspondence check
 compares with the real `exec` -/
 theorem outcome_equal_partial (W : World) (v : Val)
-    (hwf : wf W v = true) (hdom : domOK W v = true) (hclean : clean v = true)
+    (hwf : wf W v = true) (hdom : domOK W v = true) (hclean : clean Cfg.asIs v = true)
     (himp : importsOK W v = true) :
     outcome W v = cs!"equal" := by
   obtain ⟨v', hr, he⟩ := code_rt_partial W v hwf hdom hclean himp
-  have hrisk := no_risk W v (valOK_of_dom_clean W v hdom hclean)
-  simp [outcome, hrisk, hr, he]
+  have hrisk := no_risk Cfg.asIs W v (valOK_of_dom_clean Cfg.asIs W v hdom hclean)
+  simp only [run] at hr
+  simp [outcome, outcomeC, hrisk, hr, he]
 
 /-- **code_rt for any adequate namespace**: the round trip does not depend on
 how the names got bound — any namespace in which the references resolve will do
-(e.g. the generated module executed inside a package that already imports them). -/
+(e.g. the source pasted into a module that already imports the classes). -/
 theorem code_rt_any_env (W : World) (env : Xs.Code.Env) (v : Val)
-    (hwf : wf W v = true) (hdom : domOK W v = true) (hclean : clean v = true)
-    (henv : EnvGood W env (render W v).refs) :
-    ∃ v', eval W env (render W v) = .ok v' ∧ pyEq v' v = true :=
-  rt W env v hwf (valOK_of_dom_clean W v hdom hclean) henv
+    (hwf : wf W v = true) (hdom : domOK W v = true) (hclean : clean Cfg.asIs v = true)
+    (henv : EnvGood W env ((render W v).refs Cfg.asIs)) :
+    ∃ v', eval Cfg.asIs W env (render W v) = .ok v' ∧ pyEq v' v = true :=
+  rt Cfg.asIs W env v hwf (valOK_of_dom_clean Cfg.asIs W v hdom hclean) henv
+
+/-- **code_rt with the three one-line repairs** (tuple brackets by type, enum
+members by `__qualname__`, `QName({text!r})`): the round trip holds on the whole
+domain; only the import-name clash remains excluded. -/
+theorem code_rt_patched (W : World) (v : Val)
+    (hwf : wf W v = true) (hdom : domOK W v = true) (himp : importsOKC Cfg.patched W v = true) :
+    ∃ v', runC Cfg.patched W v = .ok v' ∧ pyEq v' v = true :=
+  code_rt_cfg Cfg.patched W v hwf hdom (clean_patched v) himp
 
 /-! The hypotheses are satisfiable by a non-trivial input: nested model
 classes three deep, a frozen-style tuple default left empty, an `init=False`
@@ -131,10 +158,10 @@ def W1 : World := [
 def good : Val :=
   .model outerR [
     .list [.model deepR [.list [.float .pinf cs!"inf", .opaque decR [cs!"Decimal"] cs!"('1.50')" (some (.fin 3 2))]],
-           .model in2R [.dict [(.enum topR cs!"B", .qname cs!"{urn:x}a")]]],
+           .model in2R [.dict [(.enum topR cs!"B", .qname cs!"{urn:x}a" cs!"'{urn:x}a'")]]],
     .tuple [], en, .bool false]
 
-example : wf W1 good = true ∧ domOK W1 good = true ∧ clean good = true ∧ importsOK W1 good = true := by decide
+example : wf W1 good = true ∧ domOK W1 good = true ∧ clean Cfg.asIs good = true ∧ importsOK W1 good = true := by decide
 example : outcome W1 good = cs!"equal" := by decide
 
 /-! ## Full-strength statements and why they fail -/
@@ -149,7 +176,7 @@ def CodeRoundTrips : Prop :=
 the source uses denote the class it means. **False** of the code as it stands. -/
 def ImportsSufficient : Prop :=
   ∀ (W : World) (v : Val), wf W v = true → domOK W v = true →
-    EnvGood W (importsEnv W v) (render W v).refs
+    EnvGood W (importsEnv W v) ((render W v).refs Cfg.asIs)
 
 /-- decidable form of "running the source fails with `e`" -/
 def failsWith (W : World) (v : Val) (e : Err) : Bool :=
@@ -195,7 +222,7 @@ theorem nested_enum_name_error :
     source W1 nestedEnumWitness cs!"obj"
       = cs!"from pkg.mod_a import Outer\n\n\nobj = Outer(\n    x=Inner.A\n)\n" ∧
     failsWith W1 nestedEnumWitness .nameError = true ∧
-    envGoodB W1 (importsEnv W1 nestedEnumWitness) (render W1 nestedEnumWitness).refs = false := by
+    envGoodB W1 (importsEnv W1 nestedEnumWitness) ((render W1 nestedEnumWitness).refs Cfg.asIs) = false := by
   decide
 
 /-- **Defect 2 — non-empty tuples are rendered as list displays.** `Outer(t=(1, 2))`
@@ -214,7 +241,7 @@ theorem tuple_rendered_as_list :
 
 /-- **Defect 3 — QName text pasted unescaped.** `QName("{a\b}x")` reads `\b`
 as backspace: the value changes. -/
-def qnameWitness : Val := .model outerR [.qname cs!"{a\\b}x", .tuple [], en, .int 0]
+def qnameWitness : Val := .model outerR [.qname cs!"{a\\b}x" cs!"'{a\\\\b}x'", .tuple [], en, .int 0]
 
 theorem qname_text_unescaped :
     wf W1 qnameWitness = true ∧ domOK W1 qnameWitness = true ∧ importsOK W1 qnameWitness = true ∧
@@ -235,12 +262,12 @@ def clashWitness1 : Val := .model addrA [.model addrB [.none, .int 1], .int 0]
 def clashWitness2 : Val := .model addrB [.model addrA [.none, .int 1], .int 0]
 
 theorem import_name_clash :
-    wf W2 clashWitness1 = true ∧ domOK W2 clashWitness1 = true ∧ clean clashWitness1 = true ∧
+    wf W2 clashWitness1 = true ∧ domOK W2 clashWitness1 = true ∧ clean Cfg.asIs clashWitness1 = true ∧
     importsEnv W2 clashWitness1 = [(mA, cs!"Address"), (mB, cs!"Address")] ∧
     givesUnequal W2 clashWitness1 = true ∧
-    wf W2 clashWitness2 = true ∧ domOK W2 clashWitness2 = true ∧ clean clashWitness2 = true ∧
+    wf W2 clashWitness2 = true ∧ domOK W2 clashWitness2 = true ∧ clean Cfg.asIs clashWitness2 = true ∧
     failsWith W2 clashWitness2 .typeError = true ∧
-    envGoodB W2 (importsEnv W2 clashWitness1) (render W2 clashWitness1).refs = false := by
+    envGoodB W2 (importsEnv W2 clashWitness1) ((render W2 clashWitness1).refs Cfg.asIs) = false := by
   decide
 
 /-- the full-strength round-trip statement is false (four independent witnesses) -/
@@ -278,8 +305,23 @@ theorem not_importsSufficient_clash : ¬ ImportsSufficient := by
 hypothesis of `code_rt_partial` (`wf`, `domOK`, `importsOK`), the clash
 witnesses satisfy `wf`, `domOK`, `clean`. -/
 theorem exclusions_are_tight :
-    clean nestedEnumWitness = false ∧ clean tupleWitness = false ∧ clean qnameWitness = false ∧
+    clean Cfg.asIs nestedEnumWitness = false ∧ clean Cfg.asIs tupleWitness = false ∧
+    clean Cfg.asIs qnameWitness = false ∧
     importsOK W2 clashWitness1 = false ∧ importsOK W2 clashWitness2 = false := by
+  decide
+
+/-- the three value-level witnesses round-trip once the repairs are applied;
+the emitted text then reads `Outer.Inner.A`, `( 1, 2, )`, `QName('{a\\b}x')` -/
+theorem repairs_fix_witnesses :
+    outcomeC Cfg.patched W1 nestedEnumWitness = cs!"equal" ∧
+    outcomeC Cfg.patched W1 tupleWitness = cs!"equal" ∧
+    outcomeC Cfg.patched W1 tupleKeyWitness = cs!"equal" ∧
+    outcomeC Cfg.patched W1 qnameWitness = cs!"equal" ∧
+    sourceC Cfg.patched W1 nestedEnumWitness cs!"obj"
+      = cs!"from pkg.mod_a import Outer\n\n\nobj = Outer(\n    x=Outer.Inner.A\n)\n" ∧
+    sourceC Cfg.patched W1 tupleWitness cs!"obj"
+      = cs!"from pkg.mod_a import Outer\n\n\nobj = Outer(\n    t=(\n        1,\n        2,\n    )\n)\n" ∧
+    outcomeC Cfg.patched W2 clashWitness1 = cs!"unequal" := by
   decide
 
 end Props.C18
